@@ -11,6 +11,7 @@ import (
 	"io"
 	"net"
 	"strings"
+	"sync/atomic"
 	"time"
 
 	"nhooyr.io/websocket/internal/errd"
@@ -404,12 +405,14 @@ type msgReader struct {
 	fin           bool
 	payloadLength int64
 	maskKey       uint32
+	done          int32 // atomic: 1 once the message has been read to io.EOF
 
 	// util.ReaderFunc(mr.Read) to avoid continuous allocations.
 	readFunc util.ReaderFunc
 }
 
 func (mr *msgReader) reset(ctx context.Context, h header) {
+	atomic.StoreInt32(&mr.done, 0)
 	mr.ctx = ctx
 	mr.flate = h.rsv1
 	mr.limitReader.reset(mr.readFunc)
@@ -430,9 +433,13 @@ func (mr *msgReader) setFrame(h header) {
 func (mr *msgReader) Read(p []byte) (n int, err error) {
 	err = mr.c.readMu.lock(mr.ctx)
 	if err != nil {
-		// The rest of the message will never be read, so no later message can be
-		// read either: like every other failed read this closes the connection.
-		mr.c.close()
+		if atomic.LoadInt32(&mr.done) == 0 {
+			// The rest of the message will never be read, so no later message can
+			// be read either: like every other failed read this closes the
+			// connection. A reader that has already returned io.EOF is done and
+			// leaves the connection alone, whatever has become of its context.
+			mr.c.close()
+		}
 		return 0, fmt.Errorf("failed to read: %w", err)
 	}
 	defer mr.c.readMu.unlock()
@@ -462,6 +469,7 @@ func (mr *msgReader) Read(p []byte) (n int, err error) {
 	// complete one.
 	if mr.fin && mr.payloadLength == 0 && (errors.Is(err, io.EOF) || errors.Is(err, io.ErrUnexpectedEOF) && mr.flate) {
 		mr.putFlateReader()
+		atomic.StoreInt32(&mr.done, 1)
 		return n, io.EOF
 	}
 	if err != nil {
